@@ -2,7 +2,7 @@
 import re
 
 from analysis import (emptiness_test, test_edges, flow_key, Prov, Guards, fmt, fmt_short, walk, roots, short, canon, lossy_casts, comparison, find_calls, callee_matches,
-                      must_pass, const_int_of, writes_into, _lin_add)
+                      must_pass, const_int_of, writes_into, _lin_add, linear)
 from aff import Aff, Fact
 from facts import AnchorError, strip_closure
 from harness import Rule, guarded
@@ -373,6 +373,57 @@ def r4(ctx):
     return rule
 
 
+def r5(ctx):
+    """'the bytes equal the RLP layout': the outer list header a message is framed with declares exactly the length of what follows it"""
+    facts = ctx.facts
+    rule = Rule("C06.R5", "framing: every outer list header declares the length of the item bytes written right after it", floor=7, engine="A-prov + A-path")
+    for fn in ("crate::rpc::Request::encode", "crate::rpc::Response::encode"):
+        b = facts.one(re.escape(fn) + "$")
+        rule.analysed(b)
+        p = Prov(b, facts)
+        henc = [(bi, t) for bi, t in b.calls() if short(t.callee() or "").endswith("Header::encode") and len(t.args) == 2]
+        if not henc:
+            raise AnchorError("%s: no Header::encode call" % fn)
+        for bi, t in henc:
+            h = [x for x in roots(p.operand(t.args[0])) if x[0] == "agg" and x[1].endswith("Header")]
+            buf = canon(p.operand(t.args[1]))
+            site = "%s|frame@%s" % (fn.split("::")[-2], b.arm_label(bi) if hasattr(b, "arm_label") else "")
+            if len(h) != 1:
+                rule.fail("%s|frame|header" % fn.split("::")[-2], "%s encodes a header that is not built in place" % fn, loc=b.loc(t.line))
+                continue
+            f = dict(h[0][2])
+            plen = canon(f.get("payload_length", ("unknown", "")))
+            is_list = const_int_of(f.get("list", ("unknown", ""))) == 1
+            # what is written into the same buffer after the header, up to the return
+            after = []
+            for bj, t2 in b.calls():
+                if bj == bi or bj not in b.reachable(t.target) or not t2.args:
+                    continue
+                n = short(t2.callee() or "")
+                if re.search(r"::extend_from_slice$|::put_slice$|::extend$|::push$|::put_u8$", n) and canon(p.operand(t2.args[0])) == buf:
+                    after.append(("raw", canon(p.operand(t2.args[1])), t2))
+                elif re.search(r"Encodable>?::encode$", n) and len(t2.args) == 2 and canon(p.operand(t2.args[1])) == buf:
+                    after.append(("item", canon(p.operand(t2.args[0])), t2))
+            ok = False
+            detail = "payload_length = %s, followed by %s" % (fmt_short(plen)[:100], ", ".join("%s %s" % (k, fmt_short(x)[:40]) for k, x, _ in after)[:160])
+            if plen[0] == "call" and re.search(r"::len$", short(plen[1])) and plen[2]:
+                # form A: the items were encoded into a list buffer L; header(len(L)); extend_from_slice(L)
+                L = canon(plen[2][0])
+                ok = len(after) == 1 and after[0][0] == "raw" and after[0][1] == L
+            else:
+                # form B: payload_length = sum of Encodable::length(item) over exactly the items encoded after the header
+                lin = linear(plen)
+                if lin is not None and lin[1] == 0 and lin[0] and all(v == 1 for v in lin[0].values()) and \
+                        all(k[0] == "call" and re.search(r"Encodable>?::length$", short(k[1])) and k[2] for k in lin[0]):
+                    want = sorted(fmt(canon(k[2][0]), -60) for k in lin[0])
+                    got = sorted(fmt(x, -60) for k, x, _ in after if k == "item")
+                    ok = want == got and all(k == "item" for k, _, _ in after)
+            rule.check(ok and is_list, "%s line %s: list header declares the length of what follows" % (fn.split("::")[-2], ""), "%s|frame|payload-length" % fn.split("::")[-2],
+                       "%s frames a message with a header whose payload_length is not the length of the bytes written after it (%s): the encoded message is not valid RLP for "
+                       "some field values and does not decode to the same message" % (fn, detail), loc=b.loc(t.line))
+    return rule
+
+
 def run(ctx):
     G = lambda l, f, *a: guarded("C06." + l, f, ctx, *a)
-    return G("R1-R3", r1_r2_r3) + G("R4", r4)
+    return G("R1-R3", r1_r2_r3) + G("R4", r4) + G("R5", r5)
